@@ -50,6 +50,7 @@ struct Cfg {
     xattr: bool,
     seal: bool,
     via: String, // direct | vfs
+    killpriv: bool, // killpriv_v2 configured and negotiated (not a dimension of the property's cube; sampled)
 }
 
 impl Cfg {
@@ -66,7 +67,7 @@ impl Cfg {
         let cache = ["never", "metadata", "auto", "always"][self.cache as usize];
         json!({"no_open": self.no_open, "no_opendir": self.no_opendir, "ifh": self.ifh, "host_ino": self.host_ino, "wb": self.wb,
                "cache": cache, "xattr": self.xattr, "seal": self.seal, "via": self.via,
-               "eff_no_open": self.eff_no_open(), "eff_no_opendir": self.eff_no_opendir(), "eff_wb": self.eff_wb()})
+               "eff_no_open": self.eff_no_open(), "eff_no_opendir": self.eff_no_opendir(), "eff_wb": self.eff_wb(), "killpriv": self.killpriv})
     }
     fn from_json(j: &J) -> Cfg {
         let b = |k: &str| j[k].as_bool().unwrap_or(false);
@@ -77,7 +78,7 @@ impl Cfg {
             _ => 2,
         };
         Cfg { no_open: b("no_open"), no_opendir: b("no_opendir"), ifh: b("ifh"), host_ino: b("host_ino"), wb: b("wb"), cache, xattr: j["xattr"].as_bool().unwrap_or(true),
-              seal: b("seal"), via: j["via"].as_str().unwrap_or("direct").to_string() }
+              seal: b("seal"), via: j["via"].as_str().unwrap_or("direct").to_string(), killpriv: b("killpriv") }
     }
     fn config(&self, root: &str) -> Config {
         Config {
@@ -90,6 +91,7 @@ impl Cfg {
             use_host_ino: self.host_ino,
             xattr: self.xattr,
             seal_size: self.seal,
+            killpriv_v2: self.killpriv,
             cache_policy: match self.cache {
                 0 => CachePolicy::Never,
                 1 => CachePolicy::Metadata,
@@ -106,7 +108,7 @@ fn cube() -> Vec<Cfg> {
     for bits in 0..64u32 {
         for cache in 0..4u8 {
             v.push(Cfg { no_open: bits & 1 != 0, no_opendir: bits & 2 != 0, ifh: bits & 4 != 0, host_ino: bits & 8 != 0, wb: bits & 16 != 0, xattr: bits & 32 != 0,
-                         cache, seal: false, via: "direct".into() });
+                         cache, seal: false, via: "direct".into(), killpriv: false });
         }
     }
     v
@@ -269,12 +271,78 @@ fn side_json(r: &StepRes, ids: &Ids, ch: (Vec<J>, Vec<J>), och: (Vec<J>, Vec<J>)
     J::Object(m)
 }
 
+/// Requests to the serving thread. The code under test runs on its own thread -- "the serving thread" of C05 --
+/// whose credentials and capabilities are read right after every request; whatever a request leaves behind there
+/// stays for the next request, and never touches the thread that runs the shadow and the stat-walks.
+enum Cmd {
+    Step(J, usize, usize), // request, number of reference / handle slots after it
+    Finish,
+}
+struct Ans {
+    res: StepRes,
+    creds: J,
+    nvalid: bool,
+    hvalid: bool,
+}
+
 fn drive<F>(fs: &F, sg: &mut Seg, caps: FsOptions)
 where
-    F: FileSystem,
+    F: FileSystem + Sync,
     F::Inode: From<u64> + Into<u64> + Copy,
     F::Handle: From<u64> + Into<u64> + Copy,
 {
+    let (no_open, no_opendir) = (sg.cfg.eff_no_open(), sg.cfg.eff_no_opendir());
+    std::thread::scope(|sc| {
+    let (tx, rx) = std::sync::mpsc::channel::<Cmd>();
+    let (atx, arx) = std::sync::mpsc::channel::<Ans>();
+    sc.spawn(move || {
+        let mut ps = PtSide::new(1);
+        ps.no_open = no_open;
+        ps.no_opendir = no_opendir;
+        ps.caps = caps;
+        let _ = atx.send(Ans { res: StepRes::ok(), creds: thread_creds(), nvalid: true, hvalid: true });
+        loop {
+            match rx.recv() {
+                Ok(Cmd::Step(op, nlen, hlen)) => {
+                    let res = match std::panic::catch_unwind(std::panic::AssertUnwindSafe(|| ps.step(fs, &op))) {
+                        Ok(r) => r,
+                        Err(_) => StepRes::new("PANIC"),
+                    };
+                    let creds = thread_creds();
+                    while ps.ns.len() < nlen {
+                        ps.ns.push(None);
+                    }
+                    while ps.hs.len() < hlen {
+                        ps.hs.push(None);
+                    }
+                    let nvalid = nlen > 0 && ps.ns[nlen - 1].is_some();
+                    let hvalid = hlen > 0 && ps.hs[hlen - 1].is_some();
+                    let _ = atx.send(Ans { res, creds, nvalid, hvalid });
+                }
+                _ => {
+                    // drop every reference the client still holds
+                    let ctx = Context { uid: 0, gid: 0, pid: 1 };
+                    for h in ps.hs.iter_mut() {
+                        if let Some(x) = h.take() {
+                            let ino = ps.ns.get(x.node).and_then(|v| *v).unwrap_or(1);
+                            let _ = fs.release(&ctx, ino.into(), 0, F::Handle::from(x.h), false, false, None);
+                            let _ = fs.releasedir(&ctx, ino.into(), 0, F::Handle::from(x.h));
+                        }
+                    }
+                    for (k, nslot) in ps.ns.iter_mut().enumerate() {
+                        if k > 0 {
+                            if let Some(ino) = nslot.take() {
+                                fs.forget(&ctx, ino.into(), 1);
+                            }
+                        }
+                    }
+                    let _ = atx.send(Ans { res: StepRes::ok(), creds: thread_creds(), nvalid: true, hvalid: true });
+                    break;
+                }
+            }
+        }
+    });
+    let creds0 = arx.recv().expect("serving thread").creds;
     let mut pids = Ids::new();
     let mut hids = Ids::new();
     let (mut ptree, mut pout) = digests(&sg.proot, &mut pids);
@@ -282,17 +350,13 @@ where
     sg.tr.emit(&json!({"e": "Reset", "seg": sg.seg, "mode": sg.mode, "cfg": sg.cfg.json(), "src": sg.src, "gentle": sg.gentle,
         "pt_rows": ptree.values().collect::<Vec<_>>(), "host_rows": htree.values().collect::<Vec<_>>(),
         "pt_out": pout.values().collect::<Vec<_>>(), "host_out": hout.values().collect::<Vec<_>>(),
-        "creds": thread_creds()}));
+        "creds": creds0}));
     let mut hs = HostSide::new(&sg.hroot.join("S/export"));
     hs.xattr = sg.cfg.xattr;
     hs.no_open = sg.cfg.eff_no_open();
     hs.no_opendir = sg.cfg.eff_no_opendir();
-    let mut ps = PtSide::new(1);
-    ps.no_open = hs.no_open;
-    ps.no_opendir = hs.no_opendir;
-    ps.caps = caps;
     let mut g = Gen { rng: Rng::new(sg.rng.next()), mode: sg.mode.clone(), no_open: hs.no_open, no_opendir: hs.no_opendir, wb: sg.cfg.eff_wb(),
-                      nodes: vec![NodeInfo { valid: true, kind: "dir".into(), size: 0 }], handles: Vec::new(), gentle: sg.gentle };
+                      nodes: vec![NodeInfo { valid: true, kind: "dir".into(), size: 0 }], handles: Vec::new(), gentle: sg.gentle, killpriv: sg.cfg.killpriv };
     let n = sg.ops.as_ref().map(|o| o.len()).unwrap_or(sg.len);
     for step in 0..n {
         for (k, nd) in g.nodes.iter_mut().enumerate() {
@@ -325,17 +389,9 @@ where
         sg.tr.emit(&json!({"e": "Try", "seg": sg.seg, "i": step + 1, "op": op}));
         sg.tr.flush();
         // passthrough first
-        let pres = match std::panic::catch_unwind(std::panic::AssertUnwindSafe(|| ps.step(fs, &expand(&op, &sg.proot)))) {
-            Ok(r) => r,
-            Err(_) => StepRes::new("PANIC"),
-        };
-        let creds = thread_creds();
-        while ps.ns.len() < n0 + entry_op as usize {
-            ps.ns.push(None);
-        }
-        while ps.hs.len() < h0 + handle_op as usize {
-            ps.hs.push(None);
-        }
+        tx.send(Cmd::Step(expand(&op, &sg.proot), n0 + entry_op as usize, h0 + handle_op as usize)).expect("serving thread");
+        let ans = arx.recv().expect("serving thread");
+        let (pres, creds) = (ans.res, ans.creds);
         // the shadow: always, except (sealed export) a request that is not plainly size-neutral and was refused
         let skip = sg.cfg.seal && !neut && pres.st != "OK";
         let hres = if skip { let mut r = StepRes::new("skipped"); r.gated = true; r } else { hs.step(&expand(&op, &sg.hroot)) };
@@ -349,11 +405,11 @@ where
         if entry_op {
             let kind = hres.stat.as_ref().map(|st| match type_of_mode(st.st_mode) { "dir" => "dir", "reg" => "reg", "lnk" => "lnk", _ => "other" }).unwrap_or("none");
             let size = hres.stat.as_ref().map(|st| st.st_size as u64).unwrap_or(0);
-            g.nodes.push(NodeInfo { valid: hs.ns[n0].is_some() && ps.ns[n0].is_some(), kind: kind.into(), size });
+            g.nodes.push(NodeInfo { valid: hs.ns[n0].is_some() && ans.nvalid, kind: kind.into(), size });
         }
         if handle_op {
             let node = if o == "create" { n0 } else { host::i(&op, "n").max(0) as usize };
-            g.handles.push(HandleInfo { valid: hs.hs[h0].is_some() && ps.hs[h0].is_some(), node, flags: host::u(&op, "flags") as i32, dir: o == "opendir" });
+            g.handles.push(HandleInfo { valid: hs.hs[h0].is_some() && ans.hvalid, node, flags: host::u(&op, "flags") as i32, dir: o == "opendir" });
         }
         if o == "forget" {
             let k = host::i(&op, "n");
@@ -412,24 +468,11 @@ where
                             "nslot": n0, "hslot": h0}));
         sg.tr.flush();
     }
-    // drop every reference the client still holds
-    let ctx = Context { uid: 0, gid: 0, pid: 1 };
-    for h in ps.hs.iter_mut() {
-        if let Some(x) = h.take() {
-            let ino = ps.ns.get(x.node).and_then(|v| *v).unwrap_or(1);
-            let _ = fs.release(&ctx, ino.into(), 0, F::Handle::from(x.h), false, false, None);
-            let _ = fs.releasedir(&ctx, ino.into(), 0, F::Handle::from(x.h));
-        }
-    }
-    for (k, nslot) in ps.ns.iter_mut().enumerate() {
-        if k > 0 {
-            if let Some(ino) = nslot.take() {
-                fs.forget(&ctx, ino.into(), 1);
-            }
-        }
-    }
+    tx.send(Cmd::Finish).expect("serving thread");
+    let fin = arx.recv().expect("serving thread");
     hs.close_all();
-    sg.tr.emit(&json!({"e": "End", "seg": sg.seg, "creds": thread_creds()}));
+    sg.tr.emit(&json!({"e": "End", "seg": sg.seg, "creds": fin.creds}));
+    });
 }
 
 fn run_segment(sg: &mut Seg, tree_spec: Option<&J>) {
@@ -443,7 +486,10 @@ fn run_segment(sg: &mut Seg, tree_spec: Option<&J>) {
     let cfg = sg.cfg.config(export.to_str().unwrap());
     let fs = PassthroughFs::<()>::new(cfg).expect("PassthroughFs::new");
     fs.import().expect("import");
-    let capable = FsOptions::ASYNC_READ | FsOptions::WRITEBACK_CACHE | FsOptions::ZERO_MESSAGE_OPEN | FsOptions::ZERO_MESSAGE_OPENDIR | FsOptions::DO_READDIRPLUS;
+    let mut capable = FsOptions::ASYNC_READ | FsOptions::WRITEBACK_CACHE | FsOptions::ZERO_MESSAGE_OPEN | FsOptions::ZERO_MESSAGE_OPENDIR | FsOptions::DO_READDIRPLUS;
+    if sg.cfg.killpriv {
+        capable |= FsOptions::HANDLE_KILLPRIV_V2;
+    }
     if sg.cfg.via == "direct" {
         fs.init(capable).expect("init");
         drive(&fs, sg, capable);
@@ -555,7 +601,7 @@ fn forked(path: &str, seg: usize, f: impl FnOnce(&mut Trace)) {
 
 /// Deterministic histories for request classes a random history reaches too rarely.
 fn targeted(mode: &str, work: &Path) -> Vec<(Cfg, Vec<J>)> {
-    let base = Cfg { no_open: false, no_opendir: false, ifh: false, host_ino: false, wb: false, cache: 2, xattr: true, seal: false, via: "direct".into() };
+    let base = Cfg { no_open: false, no_opendir: false, ifh: false, host_ino: false, wb: false, cache: 2, xattr: true, seal: false, via: "direct".into(), killpriv: false };
     let mut out = Vec::new();
     if mode == "c18" {
         // collapse / insert range with block-aligned ranges strictly inside the three-block file, with and without handles
@@ -595,6 +641,77 @@ fn targeted(mode: &str, work: &Path) -> Vec<(Cfg, Vec<J>)> {
             ops.push(json!({"op": "create", "p": 0, "name": "f3", "nk": "plain", "flags": libc::O_WRONLY | libc::O_TRUNC, "mode": libc::S_IFREG | 0o644, "umask": 0, "uid": 0, "gid": 0}));
             ops.push(json!({"op": "getattr", "n": 0, "h": -1}));
             out.push((cfg, ops));
+        }
+    }
+    if mode == "c18" {
+        // sealed + writeback: WRITEs whose flags carry O_APPEND and differ from the recorded ones (handle switched to append
+        // after the open, or no handles at all), inside and beyond the size
+        for no_open in [false, true] {
+            let cfg = Cfg { seal: true, wb: true, no_open, cache: if no_open { 3 } else { 2 }, ..base.clone() };
+            let h = if no_open { -1 } else { 0 };
+            let mut ops = vec![json!({"op": "lookup", "p": 0, "name": "f3", "nk": "plain"}), json!({"op": "open", "n": 1, "flags": libc::O_RDWR})];
+            for (fl, off, len) in [(libc::O_RDWR | libc::O_APPEND, 2u64, 3usize), (libc::O_RDWR, 2, 3), (libc::O_RDWR | libc::O_APPEND, 0, 12), (libc::O_RDWR | libc::O_APPEND, 10, 4), (libc::O_RDWR, 4, 2)] {
+                ops.push(json!({"op": "write", "n": 1, "h": h, "off": off, "data": vec![55u8; len], "flags": fl}));
+                ops.push(json!({"op": "getattr", "n": 1, "h": -1}));
+            }
+            ops.push(json!({"op": "open", "n": 1, "flags": libc::O_RDWR | libc::O_APPEND}));
+            ops.push(json!({"op": "write", "n": 1, "h": if no_open { -1 } else { 1 }, "off": 1, "data": [56, 56], "flags": libc::O_RDWR | libc::O_APPEND}));
+            ops.push(json!({"op": "write", "n": 1, "h": if no_open { -1 } else { 1 }, "off": 1, "data": [57, 57], "flags": libc::O_RDWR}));
+            out.push((cfg, ops));
+        }
+    }
+    if mode == "c05" {
+        // killpriv_v2: requests carrying the kill flags that FAIL, then requests whose outcome depends on the serving
+        // thread still holding CAP_FSETID (set-gid bit on a file of a foreign group, writes to set-id files)
+        for (no_open, ifh) in [(false, false), (true, false), (false, true)] {
+            let cfg = Cfg { killpriv: true, no_open, cache: if no_open { 3 } else { 2 }, ifh, ..base.clone() };
+            let chk = |ops: &mut Vec<J>| {
+                ops.push(json!({"op": "setattr", "n": 1, "h": -1, "valid": ["MODE"], "attr": {"mode": 0o755}}));
+                ops.push(json!({"op": "setattr", "n": 1, "h": -1, "valid": ["MODE"], "attr": {"mode": 0o2755}}));
+                ops.push(json!({"op": "getattr", "n": 1, "h": -1}));
+            };
+            let mut ops = vec![json!({"op": "lookup", "p": 0, "name": "f3", "nk": "plain"}), json!({"op": "lookup", "p": 0, "name": "d1", "nk": "plain"}),
+                               json!({"op": "lookup", "p": 0, "name": "fifo", "nk": "plain"}), json!({"op": "lookup", "p": 0, "name": "f1", "nk": "plain"}),
+                               json!({"op": "setattr", "n": 4, "h": -1, "valid": ["MODE"], "attr": {"mode": 0o6755}})];
+            chk(&mut ops);
+            ops.push(json!({"op": "open", "n": 2, "flags": libc::O_WRONLY | libc::O_TRUNC, "kill": true}));
+            chk(&mut ops);
+            ops.push(json!({"op": "open", "n": 3, "flags": libc::O_RDONLY | libc::O_NONBLOCK, "kill": true}));
+            chk(&mut ops);
+            ops.push(json!({"op": "open", "n": 4, "flags": libc::O_RDONLY | libc::O_DIRECTORY, "kill": true}));
+            chk(&mut ops);
+            ops.push(json!({"op": "setattr", "n": 2, "h": -1, "valid": ["SIZE"], "attr": {"size": 0}, "kill": true}));
+            chk(&mut ops);
+            ops.push(json!({"op": "setattr", "n": 3, "h": -1, "valid": ["SIZE"], "attr": {"size": 0}, "kill": true}));
+            chk(&mut ops);
+            ops.push(json!({"op": "create", "p": 0, "name": "d1", "nk": "plain", "flags": libc::O_WRONLY | libc::O_TRUNC, "mode": libc::S_IFREG | 0o644, "umask": 0, "uid": 0, "gid": 0, "kill": true}));
+            chk(&mut ops);
+            // plain writes to a set-id file by a server that holds CAP_FSETID leave the bits alone
+            ops.push(json!({"op": "open", "n": 4, "flags": libc::O_RDWR}));
+            let hslot = 4; // handle slots are allotted to failing opens and creates as well: three opens and one create before
+            ops.push(json!({"op": "write", "n": 4, "h": if no_open { -1 } else { hslot }, "off": 0, "data": [49, 50], "flags": libc::O_RDWR}));
+            ops.push(json!({"op": "getattr", "n": 4, "h": -1}));
+            // the kill flags on requests that succeed on files without set-id bits
+            ops.push(json!({"op": "lookup", "p": 0, "name": "f2", "nk": "plain"}));
+            ops.push(json!({"op": "open", "n": 6, "flags": libc::O_WRONLY | libc::O_TRUNC, "kill": true}));
+            ops.push(json!({"op": "setattr", "n": 6, "h": -1, "valid": ["SIZE"], "attr": {"size": 4}, "kill": true}));
+            chk(&mut ops);
+            out.push((cfg, ops));
+        }
+        // callers: every mix of root / non-root user and group on every creating request
+        {
+            let mut ops = vec![json!({"op": "lookup", "p": 0, "name": "d2", "nk": "plain"})];
+            let mut k = 0;
+            for (uid, gid) in [(0u32, 4242u32), (1000, 0), (0, 1000), (1000, 1000), (0, 0), (1000, 4242)] {
+                k += 1;
+                ops.push(json!({"op": "mkdir", "p": 1, "name": format!("m{k}"), "nk": "plain", "mode": 0o755, "umask": 0, "uid": uid, "gid": gid}));
+                ops.push(json!({"op": "mknod", "p": 1, "name": format!("n{k}"), "nk": "plain", "type": "fifo", "mode": libc::S_IFIFO | 0o644, "rdev": 0, "umask": 0, "uid": uid, "gid": gid}));
+                ops.push(json!({"op": "symlink", "p": 1, "name": format!("s{k}"), "nk": "plain", "target": "f1", "uid": uid, "gid": gid}));
+                ops.push(json!({"op": "create", "p": 1, "name": format!("c{k}"), "nk": "plain", "flags": libc::O_RDWR, "mode": libc::S_IFREG | 0o640, "umask": 0, "uid": uid, "gid": gid}));
+                ops.push(json!({"op": "create", "p": 0, "name": "f3", "nk": "plain", "flags": libc::O_RDONLY, "mode": libc::S_IFREG | 0o640, "umask": 0, "uid": uid, "gid": gid}));
+            }
+            out.push((base.clone(), ops.clone()));
+            out.push((Cfg { ifh: true, ..base.clone() }, ops));
         }
     }
     if mode == "c06" {
@@ -736,13 +853,20 @@ fn main() {
                 if cfg.no_open {
                     cfg.cache = 3;
                 }
-                cfg.wb = false;
+                cfg.wb = (k / 4) % 2 == 1; // writeback crossed with no_open and the write flag words
+                if cfg.wb && cfg.cache == 0 {
+                    cfg.cache = 2;
+                }
                 cfg.no_opendir = false;
             }
             "c06" => {
                 if k % 3 == 2 {
                     cfg.via = "vfs".into();
                 }
+                cfg.killpriv = k % 4 == 1;
+            }
+            "c05" => {
+                cfg.killpriv = k % 2 == 1;
             }
             _ => {}
         }
